@@ -23,7 +23,7 @@ type Case struct {
 	Clauses [][]int      `json:"clauses,omitempty"`
 	Constrs []gen.PC     `json:"constrs,omitempty"`
 	Cost    *oracle.Cost `json:"cost,omitempty"`
-	Detect  bool         `json:"detect"` // DetectAtMostOne before solving
+	Detect  bool         `json:"detect"`          // DetectAtMostOne before solving
 	NbMax   int          `json:"nbmax,omitempty"` // lowered learned-constraint limit (verif hook): reduction of the learned PB constraints
 	Family  string       `json:"family,omitempty"`
 }
